@@ -150,23 +150,25 @@ def newSess (ts : List String) : Option Sess × String :=
       match load invalidAbiDerivesFromDynamicLoadError dlNLP.ctor (descrOf file regfn) with
       | .error e => (none, "err:" ++ errName e)
       | .ok warned =>
+        -- default-initialised table: a member without `ALPAQA_DEFAULT(nullptr)` is indeterminate
+        let noDefault := abiNLP.filter (fun m => !m.hasDefault) |>.map (·.name)
         let dflt := regfn == "c20_defaultinit"
         let tbl : FnTable := fun f =>
           (nlpRequired.drop 3).contains f ||
-          (if dflt then f == "eval_proj_multipliers" else
+          (if dflt then noDefault.contains f else
             (match idxOf dlMaskNames f with | some i => bitOf mask i | none => false) ||
             (f == "name" && bitOf flags 0) || (f == "initialize_box_C" && bitOf flags 1) ||
             (f == "initialize_box_D" && bitOf flags 2) || (f == "initialize_l1_reg" && bitOf flags 3))
         let base : String → Bool := fun _ => !(bitOf flags 3 && !dflt)
         (some { kind := .dl, u := dlNative dlNLP boxConstrDeclared tbl base, m0 := m == 0,
                 logOf := fun f => dlNLP.pluginCalls tbl f,
-                garbage := if dflt then ["eval_proj_multipliers"] else [], cs := CState.empty },
+                garbage := if dflt then noDefault else [], cs := CState.empty },
          s!"ok warned={if warned then 1 else 0}")
     | _, _, _ => (none, "parse-error")
   | ["ocp", _idx, has, prov, pv, nh, nc] =>
     match has.toNat?, prov.toNat?, pv.toNat?, nh.toNat?, nc.toNat? with
     | some h, some p, some v, some nh, some nc =>
-      let u := maskNative ocpMaskNames (ocpRequired ++ ["eval_h", "eval_h_N"]) h p v
+      let u := maskNative (ocpMaskNames ++ ["eval_h", "eval_h_N"]) ocpRequired h p v
       match ocpCtorMissing u.provided nc nh nh with
       | some x => (none, "err:missing:" ++ x)
       | none => (some { kind := .ocp, u := u, m0 := nc == 0, logOf := fun f => some [f], garbage := [],
